@@ -15,6 +15,7 @@ Theorems about `FdtdxModel/C38.lean` (+ the grid model of C37), any cell counts,
   C38_reference_spacing        c·dt/courant_number = h
   C38_metric_scale_one         `_metric_scale` = 1 on every cell for both stencils, whether or not the grid is flagged
                                uniform (flag path: literally 1; general path: ref/w = h/h)
+  C38_consumers_translation_invariant  widths, min width, extents, metric factors, edge average unchanged by a shift
   C38_widths_translation_invariant   shifting the origin of an explicit grid leaves all widths unchanged
   C38_curl_term / C38_edge_average   hence the metric-aware curl term is the raw difference and the edge average the
                                arithmetic mean: the update equations of the three descriptions coincide term by term
@@ -268,6 +269,35 @@ theorem C38_widths_translation_invariant (e : List K) (t : K) (i : Nat) (hi : i 
   unfold width edge
   have h1 : i < e.length := by omega
   simp [hi, h1]
+
+/-- **every consumer quantity of the model is translation invariant**: for the same mesh written with another origin
+(`e.map (· + t)`: lower-corner style, arbitrary or negative offsets) the width list, the minimum width (hence both CFL
+branches), extents, the metric factors of both stencils and the edge average are unchanged — they use edge differences only. -/
+theorem C38_consumers_translation_invariant (e : List K) (t : K) :
+    widths (e.map (· + t)) = widths e ∧
+    minSpacing (e.map (· + t)) = minSpacing e ∧
+    (∀ lo up, lo < e.length → up < e.length → extent (e.map (· + t)) lo up = extent e lo up) ∧
+    (∀ (nonuni bw : Bool) (ref : K) i, i + 1 < e.length →
+        metricScale nonuni ref (e.map (· + t)) bw i = metricScale nonuni ref e bw i) ∧
+    (∀ (nonuni : Bool) (cur prev : K) i, i + 1 < e.length →
+        backwardEdgeAverage nonuni (e.map (· + t)) i cur prev = backwardEdgeAverage nonuni e i cur prev) := by
+  have hw : widths (e.map (· + t)) = widths e := by
+    unfold widths
+    rw [List.length_map]
+    apply List.map_congr_left
+    intro i hi
+    rw [List.mem_range] at hi
+    exact C38_widths_translation_invariant e t i (by omega)
+  refine ⟨hw, by unfold minSpacing; rw [hw], ?_, ?_, ?_⟩
+  · intro lo up hlo hup
+    unfold extent edge
+    simp [hlo, hup]
+  · intro nonuni bw ref i hi
+    unfold metricScale prevWidth
+    rw [C38_widths_translation_invariant e t i hi, C38_widths_translation_invariant e t (i - 1) (by omega)]
+  · intro nonuni cur prev i hi
+    unfold backwardEdgeAverage prevWidth
+    rw [C38_widths_translation_invariant e t i hi, C38_widths_translation_invariant e t (i - 1) (by omega)]
 
 /-! ### non-vacuity -/
 
